@@ -554,7 +554,7 @@ def evaluate__empty_and_exists_functions(self: XPathFunction, context: ta.Contex
 def select__empty(self: XPathFunction, context: ta.ContextType = None) \
         -> Iterator[bool]:
     try:
-        value = next(iter(self[0].select(self.context or context)))
+        value = next(iter(self[0].select(copy(self.context or context))))
     except StopIteration:
         yield True
     else:
@@ -565,7 +565,7 @@ def select__empty(self: XPathFunction, context: ta.ContextType = None) \
 def select__exists(self: XPathFunction, context: ta.ContextType = None) \
         -> Iterator[bool]:
     try:
-        value = next(iter(self[0].select(self.context or context)))
+        value = next(iter(self[0].select(copy(self.context or context))))
     except StopIteration:
         yield False
     else:
